@@ -252,6 +252,15 @@ pub fn stress(path: &str) {
                 let mut bad = vec![];
                 barrier.wait();
                 // (the reference above was computed while other threads were still building: recompute it once more now)
+                // first the three power expressions alone, many times (a shared memo of the last result would be hit here)
+                for _ in 0..30000 {
+                    for (i, n) in trees.iter().enumerate().take(3) {
+                        let got = crate::canon::result_text(&n.eval_with_context(&*ctx));
+                        if got != want[i] && bad.len() < 3 {
+                            bad.push(format!("loop:{}\t{}\t{}", srcs[i], want[i], got));
+                        }
+                    }
+                }
                 for _ in 0..1500 {
                     for (i, n) in trees.iter().enumerate() {
                         let got = crate::canon::result_text(&n.eval_with_context(&*ctx));
